@@ -290,6 +290,9 @@ def body_factory(tier, seed):
         # 4c. cold start under concurrency: fresh interpreters in which the very first validations of a version happen
         #     at the same moment in eight threads (whatever is initialised lazily on first use is initialised under a race)
         cold_concurrent(rep, rows, ref, 16 if tier == "quick" else 48)
+        # 4e. cold start, sequentially: the decimal-validated messages with whole-number and fractional values in either order
+        from harness.props import c04
+        c04.cold_orders(rep, PROP)
         # 5. the model: pure verdict of the same requests (the theorem says history cannot matter)
         if support_ok:
             M._validators.clear()
@@ -311,6 +314,9 @@ def run(rep, tier, seed):
 
 
 def replay(d):
+    if d.get("kind") == "cold-order":
+        from harness.props import c04
+        return c04.replay_cold(d)
     import ocpp.messages as M
     req = d["request"]
     M._validators.clear()
